@@ -616,6 +616,30 @@ def leafsets(leaves):
     return sorted(sorted(l) for l in leaves)
 
 
+def check_transformer(res, seed):
+    """the scikit-learn wrapper hands its tree parameters on: the search forest of a transformer fitted with an explicit
+    leaf_size obeys that leaf_size (generic data, nowhere near the depth limit), and tiles the fitted rows"""
+    from pynndescent import PyNNDescentTransformer
+    for metric, leaf_size, n, k in (("euclidean", 4, 260, 3), ("cosine", 6, 180, 4)):
+        rs = np.random.default_rng(4100 + seed)
+        data = rs.standard_normal((n, 5)).astype(np.float32)
+        case = {"api": "transformer", "metric": metric, "n": n, "n_neighbors": k, "leaf_size": leaf_size, "dseed": 4100 + seed}
+        tr = PyNNDescentTransformer(n_neighbors=k, metric=metric, leaf_size=leaf_size, n_trees=3, random_state=seed).fit(data)
+        idx = tr.index_
+        if not hasattr(idx, "_search_forest"):
+            idx.prepare()
+        res.count("api_transformer_indexes")
+        res.case(("transformer", metric, n, k, leaf_size, seed), True)
+        for ti, F in enumerate(idx._search_forest):
+            bad, rows = pred_flat_shape(n, F)
+            if bad:
+                res.violation("rptree:api:transformer:" + bad[0], "search tree %d: %s" % (ti, bad[1]), case); break
+            big = [e - s_ for (_, s_, e) in rows if e - s_ > leaf_size]
+            if big:
+                res.violation("rptree:api:transformer:leaf_size", "search tree %d of a transformer fitted with leaf_size=%d has a leaf of %d points"
+                              % (ti, leaf_size, max(big)), case); break
+
+
 def check_api(res, batch, cfg, seed):
     from pynndescent import NNDescent
     metric, kind, style, n, dim, k, n_trees, n_search, leaf_size, depth, full = cfg
@@ -732,6 +756,7 @@ def run(res, tier, seed, search):
             check_forest(res, batch, gen_forest_case(rng, kind))
     for cfg in API_QUICK + (API_THOROUGH if tier != "quick" else []):
         check_api(res, batch, cfg, seed)
+    check_transformer(res, seed)
     batch.run(res)
 
 
